@@ -186,7 +186,8 @@ def _run_exe(prefix, lines, timeout):
     name = 'drv_' + prefix.upper()
     exe = os.path.join(LEAN, '.lake', 'build', 'bin', name)
     if name not in _driver_built:
-        ok, log, _ = lake_build([name])
+        with lean_lock():
+            ok, log, _ = lake_build([name])
         if not ok:
             errs = [l for l in log.splitlines() if 'error' in l][:6]
             raise ModelUnavailable('%s does not build: %s' % (name, ' | '.join(errs)))
@@ -338,6 +339,38 @@ def private(rep, obj, name, what):
     return f
 
 
+import contextlib
+
+
+@contextlib.contextmanager
+def lean_lock():
+    """serialise everything that writes under lean/ (regeneration, lake) across concurrently running checks:
+    an exclusive advisory lock on lean/.verif.lock (re-entrant within one process)"""
+    import fcntl
+    global _lock_depth
+    if _lock_depth > 0:
+        _lock_depth += 1
+        try:
+            yield
+        finally:
+            _lock_depth -= 1
+        return
+    fd = os.open(os.path.join(LEAN, '.verif.lock'), os.O_CREAT | os.O_RDWR, 0o644)
+    try:
+        fcntl.flock(fd, fcntl.LOCK_EX)
+        _lock_depth = 1
+        yield
+    finally:
+        _lock_depth = 0
+        try:
+            fcntl.flock(fd, fcntl.LOCK_UN)
+        finally:
+            os.close(fd)
+
+
+_lock_depth = 0
+
+
 def lean_imports(module, seen=None):
     """transitive closure of the project-local imports of a Lean module (names like 'Gen.BmkR')"""
     seen = set() if seen is None else seen
@@ -358,6 +391,20 @@ def lean_imports(module, seen=None):
 def lean_side(rep: Report, prop: str, regen=None):
     """Regenerate translated models (if any), build the property's theorems, audit.
     Returns (ok, reason).  Never reports a violation by itself."""
+    with lean_lock():
+        r = _lean_side(rep, prop, regen)
+        # the driver of this property is built now too, under the same lock (it imports what was just regenerated)
+        try:
+            if ('drv_' + prop) not in _driver_built:
+                okd, logd, _ = lake_build(['drv_' + prop])
+                if okd:
+                    _driver_built.add('drv_' + prop)
+        except Exception:
+            pass
+        return r
+
+
+def _lean_side(rep: Report, prop: str, regen=None):
     reasons = []
     try:
         sys.path.insert(0, os.path.join(VERIF, 'tools'))
